@@ -21,7 +21,9 @@
 EXTENDS Grammar, Json
 
 PredOf(name) ==
-  CASE name \in {":", "_", ","} -> 8
+  CASE name = ":" -> 10          \* the range operator binds tightest,
+    [] name = "_" -> 9           \* then the intersection,
+    [] name = "," -> 8           \* then the union (Operator._precedences 8.6 / 8.3 / 8)
     [] name \in {"u-", "u+"} -> 7
     [] name = "%" -> 6
     [] name = "^" -> 5
